@@ -59,7 +59,7 @@ func (cr *concRun) analyse(out *ConcOutcome) {
 	if cr.opts.Lin {
 		cr.checkLin(out)
 	}
-	if cr.opts.Rounds {
+	if cr.opts.Rounds || cr.opts.AsyncClock {
 		cr.checkLinExp(out)
 	}
 	if Trace {
